@@ -302,6 +302,37 @@ def setup_frame(E):
         P('setup:empty_payload', M.values_equal(E, E.getattr(f, 'data'), b'') is True and M.values_equal(E, E.getattr(f, 'metadata'), b'') is True)
 
 
+@harness('c16.setup_frame.two_clients', ['C16', 'C17'], functions=[BASE + '._create_setup_frame', 'rsocket/frame_builders.py::to_setup_frame', BASE + '.connect'],
+         assumptions=['concrete configuration (500 ms / 10 min, JSON) so that any memo keyed on it is exercised'])
+def setup_frame_two_clients(E):
+    """The SETUP frame of a connection is built from THAT client's configuration only: two clients of one process with the
+    same periods / encodings / lease flag - one with a setup payload, one without, in either order - each announce exactly
+    their own payload, in frames that are distinct objects (a frame still queued is never rewritten by another client)."""
+    frames = {}
+    data, md = E.fresh_bytes('sdata', 1), E.fresh_bytes('smeta', 1)
+    payload = E.call(E.lookup('rsocket/payload.py::Payload'), [data, md])
+    order = [('with-payload', payload), ('without-payload', None)]
+    if E.path.choice(2, 'first-client') == 1:
+        order.reverse()
+    for who, pl in order:
+        sock, table, ctable = mk_client(E, _keep_alive_period=aio.mk_timedelta(E, 500000), _max_lifetime_period=aio.mk_timedelta(E, 600000000),
+                                        _honor_lease=False, _data_encoding=b'application/json', _metadata_encoding=b'application/json',
+                                        _setup_payload=pl, _lease_publisher=None)
+        sent = []
+        E.stubs[BASE + '.send_priority_frame'] = lambda E_, f, a, k, sent=sent: sent.append(a[1])
+        E.await_value(E.call(E.getattr(E.lookup(BASE), 'connect'), [sock]))
+        frames[who] = sent[0] if len(sent) == 1 else None
+    E.cover('both-connected')
+    a, b = frames['with-payload'], frames['without-payload']
+    E.prove('setup:each_connection_builds_its_own_frame', a is not None and b is not None and a is not b)
+    if a is None or b is None:
+        return
+    E.prove('setup:the_client_with_a_payload_announces_exactly_it[whatever another client did before or after]',
+            E.getattr(a, 'data') is data and E.getattr(a, 'metadata') is md)
+    E.prove('setup:the_client_without_a_payload_announces_none[not the payload of another client]',
+            M.values_equal(E, E.getattr(b, 'data'), b'') is True and M.values_equal(E, E.getattr(b, 'metadata'), b'') is True)
+
+
 CNT = CLIENT + '._connect_new_transport'
 
 
@@ -470,7 +501,7 @@ def handle_setup(E):
 
 # =========================================================================== C17 reconnect / C11 close
 
-@harness('c17.connect_gives_fresh_state', ['C17', 'C13', 'C14', 'C03', 'C10', 'C15'], functions=[CLIENT + '.connect', BASE + '._reset_internals', BASE + '._start_tasks',
+@harness('c17.connect_gives_fresh_state', ['C17', 'C13', 'C14', 'C03', 'C10', 'C15', 'C11', 'C05', 'C16'], functions=[CLIENT + '.connect', BASE + '._reset_internals', BASE + '._start_tasks',
                                                                            SC + '.__init__'],
          replay='c17_reconnect',
          assumptions=['pre-state arbitrary: any old stream table / queues / lease, alive flag either value (previous connection ended by EOF, '
